@@ -56,7 +56,17 @@ def build_top(md):
     r = top.add_residue("leu", c2, 3, "orx")
     for an in LOWER_NAMES:
         top.add_atom(an, E.carbon if an[0] != "n" else E.nitrogen, r)
+    # hydrogen names of older PDB / GROMACS files begin with a digit (1HB, 2HD1); "HB", "HD1" and a residue "1HB" exist too, so that reading
+    # "1HB" as the number 1 followed by the word HB selects other atoms
+    r = top.add_residue("HID", c2, 4, "SEGA")
+    for an in DIGIT_NAMES + ["HB", "HD1"]:
+        top.add_atom(an, E.hydrogen, r)
+    r = top.add_residue("5CY", c2, 5, "SEGA")
+    top.add_atom("HB", E.hydrogen, r); top.add_atom("C1", E.carbon, r)
     return top
+
+
+DIGIT_NAMES = ["1HB", "2HB", "1HD1", "22HX"]
 
 
 LOWER_NAMES = ["ne2", "and1", "orx", "lt3", "eq1", "ge1", "le5", "gta", "nex", "notb", "in2", "to1", "water1", "all2", "name3", "within"]
@@ -106,7 +116,7 @@ PREC = {"or": 0, "and": 1, "not": 2, "regex": 3, "cmp": 3, "kwbool": 4, "inlist"
 
 def gen_lit(rng, kind):
     if kind == "str":
-        s = rng.choice(["CA", "CB", "N", "O", "H1", "ALA", "GLY", "HOH", "NA", "SEGA", "ION", "C", "H", "A", "G", "LIG", "Ca", "X9", "O5'", "C5'", "C4'", "H5''", "C5", "DA", "P"] + LOWER_NAMES + ["leu", "orx"])
+        s = rng.choice(["CA", "CB", "N", "O", "H1", "ALA", "GLY", "HOH", "NA", "SEGA", "ION", "C", "H", "A", "G", "LIG", "Ca", "X9", "O5'", "C5'", "C4'", "H5''", "C5", "DA", "P"] + LOWER_NAMES + ["leu", "orx"] + DIGIT_NAMES + ["HB", "HD1", "5CY", "HID"])
         return ("q", s) if ("'" in s or rng.random() < 0.35) else ("w", s)
     if kind == "int":
         return ("n", rng.choice([0, 1, 2, 3, 5, 7, 10, 11, 12, 25]))
@@ -279,7 +289,7 @@ def run(ctx):
                 "chained comparisons, nesting; quoted and bare literals; occasional type clashes) on a topology with protein, water, an ion, "
                 "a ligand, three chains, repeated names and residue numbers; exhaustive over operator spellings at depth 2 in the thorough tier; "
                 "plus malformed strings; non-trivial = distinct expression with at least one connective or comparison")
-    ctx.assumptions.append("pyparsing's character-level scanner: inputs are canonically spaced token sequences and the regex subset {literal, ., *, [a-z]}")
+    ctx.assumptions.append("pyparsing scans while it parses: Model/SelScan.lean is the token structure of texts whose words are delimited by blanks, parentheses, quotes or symbolic operators (word operators glued to a following word, escapes in quoted strings: outside the modelled domain); regex subset {literal, ., *, [a-z]}")
     rng = ctx.rng
     top = build_top(md)
     rows = atom_table(md, top)
@@ -353,6 +363,48 @@ def run(ctx):
             mm = "ERR" if m.startswith("ERR") else m
             if mm != got_s:
                 ctx.broke("correspondence:select", "%r: impl %s model %s" % (s, got_s, m))
+    # ---- the text of the selection, scanned by the model (Model/SelScan.lean): the same expressions written with other spacing --
+    # no blanks around parentheses, quotes and symbolic operators, tabs and runs of blanks elsewhere
+    def respace(S):
+        wordy = lambda t: re.fullmatch(r"[A-Za-z0-9_.]+", t) is not None
+        sym = lambda t: re.fullmatch(r"[<>=!&|~]+", t) is not None
+        out = S[0]
+        for a, b in zip(S, S[1:]):
+            must = (wordy(a) and wordy(b)) or (sym(a) and sym(b)) or (a[0] in "'\"" and b[0] == a[0])
+            if a == "not":
+                out += rng.choice([" ", "  ", " \t"])      # the operator is spelt "not " (blank included)
+            else:
+                out += rng.choice([" ", "  ", "\t", " \t "]) if must else rng.choice(["", "", " ", "  "])
+            out += b
+        return rng.choice(["", " ", "\t"]) + out + rng.choice(["", " ", "\n"])
+    raws = []
+    for (e, T, s_) in jobs[:ctx.n(260, 3000)]:
+        raws.append((e, respace(s_.split(" ") if "'" not in s_ and '"' not in s_ else R.expr(e)[1])))
+    junk = ["name C_1", "name CA#", "resid 1,2", "name [CA]", "index -1", "name CA;", "resSeq 1 to 5 ~", "name C*", "not(protein)", "name CA and not(name N)", "n_bonds_ 1", "is_proteinX", "name 'CA", "name \"CA"]
+    compare_only = ["not\tprotein", "not\nprotein", "name not\tCA", "mass 1e5", "name 1 1HB", "resname 5CY HID", "name 2HB or name HB", "(name 1HB)", "name=='1HB'", "name==1HB"]
+    junk += compare_only
+    rawm = ctx.driver.query(["selraw %s %s" % (x.encode().hex(), atoms_enc) for _, x in raws] + ["selraw %s %s" % (x.encode().hex(), atoms_enc) for x in junk]) if ctx.driver_ok else [None] * (len(raws) + len(junk))
+    for (e, x), m in zip(raws + [(None, j) for j in junk], rawm):
+        ctx.case(dict(raw=x) if len(ctx.samples) < 6 else None, ("rawtext", x))
+        ctx.count("selection texts scanned by the model")
+        try:
+            got_s = "OK " + ",".join(map(str, top.select(x).tolist()))
+        except Exception:  # noqa: BLE001
+            got_s = "ERR"
+        if e is not None:
+            try:
+                want_s = "OK " + ",".join(map(str, [i for i, row in enumerate(rows) if ev(e, row)]))
+            except TypeErr:
+                want_s = "ERR"
+            if got_s != want_s:
+                viol("meaning|spacing", "select(%r) gives %s, its documented meaning is %s" % (x, got_s, want_s), dict(expr=x, tree=repr(e)[:300]))
+        elif got_s != "ERR" and x not in compare_only:
+            viol("malformed-accepted|" + x, "malformed selection %r was accepted and selected %s" % (x, got_s), dict(expr=x))
+        if m is not None:
+            if m == "UNMODELLED":
+                ctx.count("selection texts outside the scanner's domain")
+            elif ("ERR" if m.startswith("ERR") else m) != got_s:
+                ctx.broke("correspondence:select-text", "%r: impl %s model %s" % (x, got_s, m))
     # raw strings: malformed ones must be rejected; odd-but-grammatical ones (a keyword-spelled word in literal
     # position is a bare-word literal) are compared with the model only
     odd = ["name CA resid", "water name CA", "name resid", "resid 1 to", "resname to to to", "name CA CB and resid 1 2",
